@@ -105,10 +105,85 @@ Proof. decide equality. apply policy_eq_dec. Qed.
 Lemma option_node_eq_dec (a b : option node) : {a = b} + {a <> b}.
 Proof. decide equality. decide equality; apply N.eq_dec. Qed.
 
-Lemma restart_graph_same st :
-  s_edges (restart st) = s_edges st /\ s_nodes (restart st) = s_nodes st /\
-  s_zombies (restart st) = s_zombies st /\ s_closed (restart st) = s_closed st.
+(* a restart keeps channels, zombie index and closed index; the node table is
+   swept (Builder.Start -> PruneGraphNodes): only nodes without a channel go *)
+Lemma restart_graph_same own st :
+  s_edges (restart own st) = s_edges st /\
+  s_nodes (restart own st) =
+    filter (fun x => N.eqb (fst x) own || has_chan (s_edges st) (fst x)) (s_nodes st) /\
+  s_zombies (restart own st) = s_zombies st /\ s_closed (restart own st) = s_closed st.
 Proof. repeat split. Qed.
+
+Lemma alookup_filter_some {A} (p : N * A -> bool) k v l :
+  alookup k (filter p l) = Some v -> p (k, v) = true.
+Proof.
+  induction l as [|[k' v'] r IH]; cbn [filter alookup]; [discriminate|].
+  destruct (p (k', v')) eqn:Ep; cbn [alookup]; [|exact IH].
+  destruct (N.eqb k k') eqn:E; [|exact IH].
+  apply N.eqb_eq in E. subst. intros H. injection H as <-. exact Ep.
+Qed.
+
+Lemma alookup_drop {A} (f : N -> bool) k (l : list (N * A)) :
+  alookup k (filter (fun x => negb (f (fst x))) l) = if f k then None else alookup k l.
+Proof.
+  induction l as [|[k' v'] r IH]; cbn [filter alookup fst].
+  - now destruct (f k).
+  - destruct (f k') eqn:Ef; cbn [negb alookup].
+    + destruct (N.eqb k k') eqn:E; [|exact IH].
+      apply N.eqb_eq in E. subst. now rewrite IH, Ef.
+    + destruct (N.eqb k k') eqn:E; [|exact IH].
+      apply N.eqb_eq in E. subst. now rewrite Ef.
+Qed.
+
+Lemma filter_no_match {A} (f : N -> bool) (l : list (N * A)) :
+  existsb (fun x => f (fst x)) l = false -> filter (fun x => negb (f (fst x))) l = l.
+Proof.
+  induction l as [|x r IH]; cbn [existsb filter]; [reflexivity|].
+  intros H. apply orb_false_iff in H. destruct H as [H1 H2]. rewrite H1. cbn [negb].
+  now rewrite IH.
+Qed.
+
+Lemma alookup_aremove {A} (k k2 : N) (l : list (N * A)) :
+  alookup k2 (aremove k l) = if N.eqb k2 k then None else alookup k2 l.
+Proof.
+  induction l as [|[k' v'] r IH]; cbn [aremove alookup].
+  - now destruct (N.eqb k2 k).
+  - destruct (N.eqb k k') eqn:E.
+    + apply N.eqb_eq in E. subst k'. rewrite IH. now destruct (N.eqb k2 k).
+    + cbn [alookup]. destruct (N.eqb k2 k') eqn:E2; [|exact IH].
+      apply N.eqb_eq in E2. subst k'.
+      destruct (N.eqb k2 k) eqn:E3; [|reflexivity].
+      apply N.eqb_eq in E3. subst. now rewrite N.eqb_refl in E.
+Qed.
+
+Lemma has_chan_spec es n :
+  has_chan es n = true ->
+  exists scid e, alookup scid es = Some e /\ (e_n1 e = n \/ e_n2 e = n).
+Proof.
+  unfold has_chan. intros H. apply existsb_exists in H. destruct H as ([k e0] & _ & H).
+  cbn [fst] in H. destruct (alookup k es) as [e|] eqn:E; [|discriminate].
+  exists k, e. split; [assumption|].
+  apply orb_true_iff in H. destruct H as [H|H]; apply N.eqb_eq in H; auto.
+Qed.
+
+(* DeleteChannelEdges with zombie marking: per direction the zombie index holds
+   either no key or the key of the node that owns that direction in the deleted
+   channel, and at least one direction keeps its owner; the channel is gone *)
+Lemma delete_zombie_keys sa own st scid strict e :
+  alookup scid (s_edges st) = Some e ->
+  exists k1 k2,
+    alookup scid (s_zombies (apply_op sa own st (ODelete scid true strict))) = Some (k1, k2) /\
+    (k1 = 0 \/ k1 = e_n1 e) /\ (k2 = 0 \/ k2 = e_n2 e) /\ (k1 = e_n1 e \/ k2 = e_n2 e) /\
+    alookup scid (s_edges (apply_op sa own st (ODelete scid true strict))) = None.
+Proof.
+  intros He. cbn [apply_op]. rewrite He. cbn [set_zombie drop_edges s_zombies s_edges].
+  rewrite alookup_ainsert_same, alookup_drop, N.eqb_refl.
+  destruct strict.
+  - unfold make_zombie_keys.
+    destruct (option_map p_ts (e_p1 e)) as [a|], (option_map p_ts (e_p2 e)) as [b|];
+      try destruct (N.ltb a b); eexists _, _; repeat split; auto.
+  - eexists _, _; repeat split; auto.
+Qed.
 
 Ltac break_match H :=
   repeat match type of H with
@@ -280,6 +355,83 @@ Section WithOracles.
         * repeat split; try apply Hval. apply pol_dir_set_same.
         * exfalso. apply Hne. apply pol_dir_set_other; [apply dir_of_01 | assumption | assumption].
       + congruence.
+  Qed.
+
+  (* the zombie index under a channel update: untouched, or the update passed
+     processZombieUpdate — a non-blank key is stored for its direction and the
+     signature verifies under THAT key — and the entry is removed *)
+  Definition zkey (ks : N * N) (u : chan_upd) : N :=
+    if N.eqb (dir_of (cu_cf u)) 0 then fst ks else snd ks.
+
+  Definition resurrect_ok (ks : N * N) (u : chan_upd) : Prop :=
+    zkey ks u <> 0 /\ verify (zkey ks u) (cu_dg u) (cu_sig u) = true /\
+    cu_chain u = c_chain cfg /\ cu_ts u <> 0.
+
+  Lemma bue_zombies now st scid p st' :
+    builder_update_edge now st scid p = inl st' -> s_zombies st' = s_zombies st.
+  Proof.
+    unfold builder_update_edge. intros H. break_match H; inversion H; subst; reflexivity.
+  Qed.
+
+  Lemma upd_zombie_char now peer id st u st' v r :
+    handle_chan_upd now peer id st u = (st', v, r) ->
+    s_zombies st' = s_zombies st \/
+    (exists ks, alookup (cu_scid u) (s_zombies st) = Some ks /\
+                alookup (cu_scid u) (s_edges st) = None /\ resurrect_ok ks u /\
+                s_zombies st' = aremove (cu_scid u) (s_zombies st)).
+  Proof.
+    unfold Model.handle_chan_upd. intros H.
+    destruct (rejected st (cu_scid u) peer); [inversion H; subst; now left|].
+    destruct (negb (N.eqb (cu_chain u) (c_chain cfg))) eqn:Echain;
+      [inversion H; subst; now left|].
+    destruct (negb (is_alias (cu_scid u)) && N.ltb (c_best cfg) (height_of (cu_scid u)));
+      [inversion H; subst; now left|].
+    destruct (N.eqb (cu_ts u) 0) eqn:Ets; [inversion H; subst; now left|].
+    destruct (stale_policy cfg now st (cu_scid u) (cu_ts u) (cu_cf u));
+      [inversion H; subst; now left|].
+    destruct (N.ltb (now + c_prune cfg) (cu_ts u)); [inversion H; subst; now left|].
+    apply negb_false_iff in Echain. apply N.eqb_eq in Echain. apply N.eqb_neq in Ets.
+    destruct (alookup (cu_scid u) (s_edges st)) as [e|] eqn:Ee.
+    - left. break_match H; inversion H; subst; try reflexivity;
+        match goal with
+        | Eb : builder_update_edge _ _ _ _ = inl _ |- _ =>
+          apply bue_zombies in Eb; rewrite Eb; reflexivity
+        end.
+    - destruct (alookup (cu_scid u) (s_zombies st)) as [[k1 k2]|] eqn:Ez;
+        [|inversion H; subst; now left].
+      destruct (N.eqb (if N.eqb (dir_of (cu_cf u)) 0 then k1 else k2) 0) eqn:Ek;
+        [inversion H; subst; now left|].
+      destruct (verify (if N.eqb (dir_of (cu_cf u)) 0 then k1 else k2) (cu_dg u) (cu_sig u)) eqn:Ev;
+        [|inversion H; subst; now left].
+      inversion H; subst. right. exists (k1, k2). apply N.eqb_neq in Ek.
+      unfold resurrect_ok, zkey. cbn [fst snd]. repeat split; assumption.
+  Qed.
+
+  Lemma take_premature_zombies st scid st1 rp :
+    take_premature st scid = (st1, rp) -> s_zombies st1 = s_zombies st.
+  Proof.
+    unfold take_premature. destruct (alookup scid (s_premature st));
+      intros H; inversion H; subst; reflexivity.
+  Qed.
+
+  Lemma ca_zombie_char peer st a st' v r rp :
+    handle_chan_ann peer st a = (st', v, r, rp) ->
+    s_zombies st' = s_zombies st \/
+    (rp = [] /\ s_zombies st' = ainsert (ca_scid a) (0, 0) (s_zombies st)).
+  Proof.
+    unfold Model.handle_chan_ann. cbv beta zeta. intros H.
+    break_match H; inversion H; subst;
+      try solve [left; reflexivity | right; split; reflexivity];
+      match goal with
+      | Et : take_premature _ _ = _ |- _ =>
+        apply take_premature_zombies in Et; left; rewrite Et; reflexivity
+      end.
+  Qed.
+
+  Lemma na_zombie_same st a st' v r :
+    handle_node_ann st a = (st', v, r) -> s_zombies st' = s_zombies st.
+  Proof.
+    unfold Model.handle_node_ann. intros H. break_match H; inversion H; subst; reflexivity.
   Qed.
 
   (* ---- node announcement ---- *)
@@ -730,6 +882,126 @@ Section WithOracles.
     left. now apply N.eqb_eq.
   Qed.
 
+  (* ---- zombie resurrection ---- *)
+  Lemma replay_zombie now ps : forall st st' outs,
+    replay now st ps = (st', outs) ->
+    forall scid ks, alookup scid (s_zombies st) = Some ks ->
+      alookup scid (s_zombies st') = None ->
+      exists p, In p ps /\ cu_scid (pd_upd p) = scid /\ resurrect_ok ks (pd_upd p).
+  Proof.
+    induction ps as [|p ps IH]; intros st st' outs H scid ks Hz Hn; cbn [Model.replay] in H.
+    - inversion H; subst. congruence.
+    - destruct (handle_chan_upd now (pd_peer p) (pd_id p) st (pd_upd p)) as [[st1 v1] r1] eqn:E1.
+      destruct (replay now st1 ps) as [st2 outs2] eqn:E2. inversion H; subst.
+      destruct (upd_zombie_char _ _ _ _ _ _ _ _ E1) as [Hs|(ks' & Hz' & _ & Hok & Hs)].
+      + rewrite <- Hs in Hz. destruct (IH _ _ _ E2 scid ks Hz Hn) as (q & Hin & Hq).
+        exists q. split; [now right | exact Hq].
+      + destruct (N.eq_dec scid (cu_scid (pd_upd p))) as [->|Hne].
+        * exists p. rewrite Hz in Hz'. injection Hz' as <-. split; [now left|]. split; [reflexivity|exact Hok].
+        * assert (Hz1 : alookup scid (s_zombies st1) = Some ks).
+          { rewrite Hs, alookup_aremove. apply N.eqb_neq in Hne. now rewrite Hne. }
+          destruct (IH _ _ _ E2 scid ks Hz1 Hn) as (q & Hin & Hq).
+          exists q. split; [now right | exact Hq].
+  Qed.
+
+  (* a zombie entry that is gone after a step was removed by a channel update
+     (the message or a replayed parked one) for that scid that passed
+     processZombieUpdate against the STORED keys *)
+  Lemma step_zombie_authentic now peer id st m st' outs :
+    step now peer id st m = (st', outs) ->
+    forall scid ks, alookup scid (s_zombies st) = Some ks ->
+      alookup scid (s_zombies st') = None ->
+      exists u, (m = MCU u \/
+                 exists a p, m = MCA a /\ In p (pending_of st (ca_scid a)) /\ pd_upd p = u) /\
+                cu_scid u = scid /\ resurrect_ok ks u.
+  Proof.
+    intros H scid ks Hz Hn. destruct m as [a|u|a]; cbn [Model.step] in H.
+    - destruct (handle_chan_ann peer st a) as [[[st1 v] rl] rp] eqn:E1.
+      destruct (replay now st1 rp) as [st2 outs2] eqn:E2. inversion H; subst.
+      destruct (ca_zombie_char _ _ _ _ _ _ _ E1) as [Hs|[Hrp Hs]].
+      + rewrite <- Hs in Hz.
+        destruct (replay_zombie _ _ _ _ _ E2 scid ks Hz Hn) as (p & Hin & Hp1 & Hp2).
+        exists (pd_upd p). split; [|split; assumption].
+        right. exists a, p. split; [reflexivity|]. split; [|reflexivity].
+        destruct (ca_char _ _ _ _ _ _ _ E1) as [(_ & _ & Hrp)|(cap & _ & _ & _ & _ & _ & Hrp)];
+          subst rp; [contradiction | assumption].
+      + subst rp. cbn [Model.replay] in E2. inversion E2; subst. exfalso.
+        rewrite Hs, alookup_ainsert in Hn. destruct (N.eqb scid (ca_scid a)); congruence.
+    - destruct (handle_chan_upd now peer id st u) as [[st1 v] rl] eqn:E1. inversion H; subst.
+      destruct (upd_zombie_char _ _ _ _ _ _ _ _ E1) as [Hs|(ks' & Hz' & _ & Hok & Hs)].
+      + rewrite Hs in Hn. congruence.
+      + exists u. split; [now left|].
+        rewrite Hs, alookup_aremove in Hn. destruct (N.eqb scid (cu_scid u)) eqn:E; [|congruence].
+        apply N.eqb_eq in E. subst scid. rewrite Hz in Hz'. injection Hz' as <-.
+        split; [reflexivity | exact Hok].
+    - destruct (handle_node_ann st a) as [[st1 v] rl] eqn:E1. inversion H; subst.
+      rewrite (na_zombie_same _ _ _ _ _ E1) in Hn. congruence.
+  Qed.
+
+  (* ---- histories with graph maintenance events ---- *)
+  Lemma sweep_inv st : nodes_have_channels (sweep_nodes (c_own cfg) st).
+  Proof.
+    intros n nd H. cbn [sweep_nodes s_nodes s_edges] in *.
+    apply alookup_filter_some in H. cbn [fst] in H.
+    apply orb_true_iff in H. destruct H as [H|H].
+    - left. now apply N.eqb_eq.
+    - right. now apply has_chan_spec.
+  Qed.
+
+  Definition hist_inv (sd : state * bool) : Prop :=
+    snd sd = false -> nodes_have_channels (fst sd).
+
+  Lemma ev_step_inv sa i sd e :
+    hist_inv sd -> hist_inv (ev_step cfg verify fund expected_script is_alias sa i sd e).
+  Proof.
+    destruct sd as [st dirty]. unfold hist_inv. cbn [fst snd ev_step]. intros Hinv.
+    destruct e as [now peer m|o|].
+    - cbn [fst snd]. intros Hd. destruct (step now peer i st m) as [st' outs] eqn:E. cbn [fst].
+      eapply step_preserves_inv; [eassumption | now apply Hinv].
+    - cbn [fst snd]. destruct o as [spent|lo hi|scid z strict|]; cbn [op_sweeps apply_op is_unswept_removal].
+      + destruct (sa || op_closes st spent) eqn:Es.
+        * intros _. apply sweep_inv.
+        * intros Hd. rewrite orb_false_r in Hd. apply orb_false_iff in Es. destruct Es as [_ Ec].
+          unfold op_closes in Ec. intros n nd Hn. cbn [drop_edges s_nodes s_edges] in *.
+          rewrite (filter_no_match (fun k => smem k spent) _ Ec). exact (Hinv Hd n nd Hn).
+      + intros Hd. rewrite orb_true_r in Hd. discriminate.
+      + intros Hd. rewrite orb_true_r in Hd. discriminate.
+      + intros _. apply sweep_inv.
+    - cbn [fst snd]. intros _. unfold restart. apply sweep_inv.
+  Qed.
+
+  Lemma run_events_inv sa h : forall sd i,
+    hist_inv sd -> hist_inv (run_events cfg verify fund expected_script is_alias sa sd i h).
+  Proof.
+    induction h as [|e h IH]; intros sd i Hinv; cbn [run_events]; [assumption|].
+    apply IH. now apply ev_step_inv.
+  Qed.
+
+  Lemma init_hist_inv : hist_inv (init (c_own cfg), false).
+  Proof. intros _. apply init_inv. Qed.
+
+  (* accepted node announcement => the node has a known channel, in every state
+     reached by a history whose channel removals were all swept *)
+  Lemma node_ann_needs_channel sa h st now peer id a st' outs n :
+    run_events cfg verify fund expected_script is_alias sa (init (c_own cfg), false) 0 h
+      = (st, false) ->
+    step now peer id st (MNA a) = (st', outs) ->
+    alookup n (s_nodes st') <> alookup n (s_nodes st) ->
+    na_node a = n /\
+    (exists old, alookup n (s_nodes st) = Some old /\ nd_ts old < na_ts a) /\
+    verify n (na_dg a) (na_sig a) = true /\
+    (n = c_own cfg \/
+     exists scid e, alookup scid (s_edges st) = Some e /\ (e_n1 e = n \/ e_n2 e = n)).
+  Proof.
+    intros Hrun Hstep Hne.
+    pose proof (run_events_inv sa h _ 0 init_hist_inv) as Hinv. rewrite Hrun in Hinv.
+    specialize (Hinv eq_refl). cbn [fst] in Hinv.
+    destruct (step_node_authentic _ _ _ _ _ _ _ Hstep n Hne)
+      as [(a0 & old & Hm & Hnode & Hold & Hts & _ & Hv & _)|(a0 & cap & Hm & _)]; [|discriminate].
+    injection Hm as <-. split; [assumption|]. split; [now exists old|]. split; [assumption|].
+    exact (Hinv n old Hold).
+  Qed.
+
   Lemma replay_revalidates now peer id st a st' outs :
     step now peer id st (MCA a) = (st', outs) ->
     alookup (ca_scid a) (s_edges st) = None ->
@@ -768,3 +1040,31 @@ Section WithOracles.
       repeat split; assumption.
   Qed.
 End WithOracles.
+
+(* ---- the clause "node announcement only for a node with a known channel" is
+   REFUTED inside the window between a channel removal that does not sweep the
+   nodes (re-org of the funding block, DeleteChannelEdges) and the next sweep:
+   concrete witnesses, replayed on the real code by the harness (history
+   templates "reorg"/"delete" x "none"/"block_empty") ---- *)
+Definition w_cfg := mkCfg 99 1 1000 false 86400 1209600 10.
+Definition w_ver (k d s : N) : bool := N.eqb s (1000 * k + d).
+Definition w_scid : N := 1000 * 2 ^ 40 + 2 ^ 16.
+Definition w_fund (_ : N) : funding := FTx (Some 7) 1000 UUnspent.
+Definition w_script (_ _ : N) (_ : bool) : option N := Some 7.
+Definition w_alias (_ : N) : bool := false.
+Definition w_ca := mkCA 1 w_scid 1 2 3 4 1050 2050 3050 4050 50 false.
+Definition w_na := mkNA 1 7000 1070 70 true.
+Definition w_hist_kv : list event :=
+  [EMsg 6000 5 (MCA w_ca); EOp (ODisconnect (1000 * 2 ^ 40) (16000000 * 2 ^ 40))].
+Definition w_hist_sql : list event := w_hist_kv ++ [EOp (OConnect [])].
+
+Definition channelless_na_applied (sa : bool) (h : list event) : Prop :=
+  let sd := run_events w_cfg w_ver w_fund w_script w_alias sa (init 99, false) 0 h in
+  let st' := fst (step w_cfg w_ver w_fund w_script w_alias 6000 5 9 (fst sd) (MNA w_na)) in
+  snd sd = true /\ s_edges (fst sd) = [] /\ na_node w_na <> c_own w_cfg /\
+  alookup (na_node w_na) (s_nodes (fst sd)) = Some shell /\
+  alookup (na_node w_na) (s_nodes st') = Some (mkNode (na_ts w_na) (na_sig w_na)).
+
+Lemma window_refuted :
+  channelless_na_applied true w_hist_kv /\ channelless_na_applied false w_hist_sql.
+Proof. split; vm_compute; repeat split; discriminate. Qed.
